@@ -173,6 +173,25 @@ int evutil_read_file_(const char *filename, char **content_out, size_t *len_out,
 #else
 #define C39_FREE(s, n, len) free((s) - ((n) - (len)))
 #endif
+/* Release everything that is reachable from the base (the library's own evdns_base_free walks request tables and
+ * nameserver failure paths that are C34's subject and cost minutes here).  Whatever a parser allocated and did not
+ * link into the base stays allocated and is reported by --memory-leak-check. */
+static void c39_free_base(struct evdns_base *b)
+{
+	struct nameserver *ns = b->server_head, *nx; int i;
+	for (i = 0; i < 3 && ns; i++) {
+		nx = ns->next;
+		mm_free(ns);
+		ns = (nx == b->server_head) ? NULL : nx;
+	}
+	search_state_decref(b->global_search_state);
+	{
+		struct hosts_entry *victim;
+		while ((victim = TAILQ_FIRST(&b->hostsdb))) { TAILQ_REMOVE(&b->hostsdb, victim, next); mm_free(victim); }
+	}
+	mm_free(b->req_heads);
+	mm_free(b);
+}
 /* symbolic NUL-terminated string of length 0..n at the end of an exact object of n+1 bytes */
 static char *c39_string(size_t n, size_t *lenp)
 {
@@ -359,7 +378,7 @@ void harness_option(void)
 	if (k == DCR_NOPTS) C39_WITNESS("C39 option: near-miss of the name is not the option");
 #endif
 	C39_KF_WITNESS();
-	evdns_base_free(base, 0);
+	c39_free_base(base);
 #if C39_OPTK >= 0
 	free(option);
 #else
@@ -505,7 +524,7 @@ void harness_resolv(void)
 	VP_ASSERT(c39_conf_equal(&ca, &cb), "C39: resolv.conf line changed an option field directly");
 	if (kind == DCR_L_NONE && t.n > 0) C39_WITNESS("C39 resolv: unknown or unselected directive ignored");
 	C39_KF_WITNESS();
-	evdns_base_free(base, 0);
+	c39_free_base(base);
 	C39_FREE(line, C39_N, len);
 }
 
@@ -565,7 +584,7 @@ void harness_hosts(void)
 	if (want_n >= 1 && cut >= 0) C39_WITNESS("C39 hosts: names before a comment");
 	if (want_r == -1) C39_WITNESS("C39 hosts: bad address, line skipped");
 	if (t.n == 0 && len > 0) C39_WITNESS("C39 hosts: comment or blank line");
-	evdns_base_free(base, 0);
+	c39_free_base(base);
 	C39_FREE(line, C39_N, len);
 }
 
@@ -627,6 +646,6 @@ void harness_file(void)
 	if (nl >= 2) C39_WITNESS("C39 file: three lines");
 	if (nl == 0) C39_WITNESS("C39 file: no newline");
 	C39_KF_WITNESS();
-	evdns_base_free(base, 0);
+	c39_free_base(base);
 }
 #endif
